@@ -1800,3 +1800,8 @@ MA('C03', 'right scalar multiple scales the input into out and calls the operato
    'tmp = self.domain.element()',
    'tmp = out if (self.domain == self.range and x is not out) else self.domain.element()',
    'pad_const=c] * a')
+MA('C06', 'composition differentiates the left factor at the shared temporary',
+   'odl/operator/operator.py', 'OperatorComp.derivative',
+   'left_deriv = self.left.derivative(self.right(x))',
+   'left_deriv = self.left.derivative(self.right(x, out=self.__tmp) if self.__tmp is not None else self.right(x))',
+   'tmp=')
